@@ -116,6 +116,10 @@ def _call(g, req, rel):
         c, a, b, k, h = req["pc"], req["pa"], req["pb"], req["pk"], req["ph"]
 
         def curve(thetas):
+            if req.get("planar"):
+                # a planar user curve given as (x, y) only (added after seed C11i): to_distance_mode() documents that an
+                # unspecified coordinate of the target counts as 0 -- the curve lies in the plane Z = 0, in either mode
+                return np.column_stack((c[0] + a * np.cos(2 * np.pi * k * thetas), c[1] + b * np.sin(2 * np.pi * k * thetas)))
             return np.column_stack((c[0] + a * np.cos(2 * np.pi * k * thetas), c[1] + b * np.sin(2 * np.pi * k * thetas),
                                     c[2] + h * thetas))
         return t.parametric(curve, req["len"])
@@ -192,6 +196,23 @@ def gen_long(rng):
     res = round(2 * math.pi * r / ratio, 4)
     return {"shape": "circle", "res": res, "ccw": ccw, "start": s, "target": list(s), "center": c, "centers": [c], "r": r,
             "hasz": False, "far": True, "len": 2 * math.pi * r, "turns": 1, "dp": 3, "only_abs": True}
+
+
+def gen_far(rng):
+    """A short arc at a fine resolution far from the origin (added after seed C12i: "the point coincides with the current
+    position" tested with a RELATIVE tolerance): coordinates of the order of 10^5 resolutions, recorded at 3 decimals,
+    absolute run only."""
+    res = rng.choice([0.004, 0.005, 0.008])
+    r = rng.uniform(1.5, 3.0)
+    ccw = rng.random() < 0.5
+    a0 = rng.uniform(-math.pi, math.pi)
+    s = [round(rng.choice([-1, 1]) * rng.uniform(900, 1800), 3), round(rng.choice([-1, 1]) * rng.uniform(600, 1200), 3), 0.0]
+    c = [s[0] - r * math.cos(a0), s[1] - r * math.sin(a0), 0.0]
+    sweep = rng.uniform(0.8, 2.5)
+    a1 = a0 + (1.0 if ccw else -1.0) * sweep
+    t = [c[0] + r * math.cos(a1), c[1] + r * math.sin(a1), 0.0]
+    return {"shape": "arc", "res": res, "ccw": ccw, "start": s, "target": t, "center": c, "centers": [c], "r": r,
+            "hasz": False, "far": True, "len": r * sweep, "turns": 1, "dp": 3, "only_abs": True, "warm": False}
 
 
 def closed_curves(rng, n=24):
@@ -341,6 +362,10 @@ def gen(rng, shape=None, allow_tiny=True):
         pts = [(c[0] + a * math.cos(2 * math.pi * k * i / n), c[1] + b * math.sin(2 * math.pi * k * i / n), c[2] + h * i / n) for i in range(n + 1)]
         ln = sum(math.dist(pts[i], pts[i + 1]) for i in range(n))
         req.update(target=t, center=c, centers=[c], r=0.0, pc=c, pa=a, pb=b, pk=k, ph=h, len=ln, far=False)
+        if h == 0.0 and rng.random() < 0.6:
+            c[2] = 0.0
+            t[2] = 0.0
+            req.update(planar=True, target=t, center=c, centers=[c], pc=c)
     elif shape == "spiral":
         r1 = rng.uniform(6 * res, 30)
         a1 = rng.uniform(-math.pi, math.pi)
